@@ -291,6 +291,12 @@ func (g *Gen) balPool(o *Out) *gPool {
 	}
 	shape := g.Intn(4)
 	base := g.amount(30)
+	// magnitude class of the pool: reserves x 10^9 (around 2^128), x 10^30 (around 2^200), x 10^45 (up to 2^249, Dec holds < 2^256)
+	boost := big.NewInt(1)
+	if k := g.Intn(100); k < 9 {
+		boost = pow10([]int{9, 30, 45}[k%3])
+		o.Count(fmt.Sprintf("class.bal.reserves-x1e%d", []int{9, 30, 45}[k%3]))
+	}
 	equalW := g.Intn(3) == 0
 	w0 := g.weight()
 	for i := 0; i < n; i++ {
@@ -308,6 +314,12 @@ func (g *Gen) balPool(o *Out) *gPool {
 		w := g.weight()
 		if equalW {
 			w = w0
+		}
+		if boost.BitLen() > 1 {
+			r = new(big.Int).Mul(r, boost)
+			if g.Intn(4) == 0 {
+				r.Add(r, new(big.Int).Rand(g.r, boost))
+			}
 		}
 		p.assets = append(p.assets, gAsset{d: gDenoms[i], r: r, w: w})
 	}
@@ -337,9 +349,14 @@ func (g *Gen) ssPool(o *Out) *gPool {
 	p := &gPool{ss: true, total: g.shares()}
 	shape := g.Intn(4)
 	baseExp := 1 + g.Intn(21)
+	top := 30
+	if g.Intn(100) < 8 { // scaled reserves up to the documented bound 10^34 of the pool (beyond: rejected)
+		top, baseExp = 34, 30+g.Intn(5)
+		o.Count("class.ss.scaled-near-1e34")
+	}
 	for i := 0; i < n; i++ {
 		sf := g.scalingFactor()
-		maxScaledExp := 30 - len(fmt.Sprint(sf)) + 1
+		maxScaledExp := top - len(fmt.Sprint(sf)) + 1
 		var scaled *big.Int
 		switch shape {
 		case 0, 1: // near the peg
